@@ -51,6 +51,8 @@ REQUIRED = [
     "disconnect_mid_frame",
     "on_connection_generator",
     "requests_checked",
+    "timeout_from_scope_around_yield",
+    "scope_timeout_inside_on_connection_generator",
 ]
 WATCHDOG = {"quick": 900, "thorough": 7200}
 EPS = 0.05
@@ -93,6 +95,9 @@ def gen_params(rng: random.Random) -> dict:
         "per_gen": rng.choice([1, 2, 3, None]),
         "timeout": rng.choice([None, None, 0, 0.5, 2.0]),
         "on_timeout": rng.choice(["continue", "stop"]),
+        # how the wait is bounded: a yielded timeout, or a timeout() / move_on_after() scope of the back-end around a bare yield
+        # (the server then sees a cancellation of its pending receive, thrown into the generator, instead of a deadline)
+        "tmode": rng.choice(["yield", "yield", "timeout-scope", "move-on-scope"]),
         "on_connection": rng.choice(["coro", "coro", "gen0", "gen1", "gen2"]),
         "close_at": rng.choice([None, None, None, 1, 2, 4]),
         "after_close": rng.choice(["continue", "return"]),  # keep waiting for requests on the closed client, or end the generator
@@ -160,8 +165,18 @@ def run_conn(p: dict) -> dict:
             try:
                 while limit is None or got < limit:
                     log.append(("yield", p["timeout"], now()))
+                    tmode = p.get("tmode", "yield") if p["timeout"] else "yield"
                     try:
-                        req = yield p["timeout"]
+                        if tmode == "yield":
+                            req = yield p["timeout"]
+                        elif tmode == "timeout-scope":
+                            with backend.timeout(p["timeout"]):
+                                req = yield None
+                        else:
+                            with backend.move_on_after(p["timeout"]) as ms:
+                                req = yield None
+                            if ms.cancelled_caught():
+                                raise TimeoutError
                     except TimeoutError:
                         log.append(("timeout", now()))
                         if p["on_timeout"] == "stop":
@@ -375,6 +390,10 @@ def decide(p: dict, res: dict, ctx=None) -> str | None:
             ctx.count("disconnect_mid_frame")
         if p["level"] == "high" and p["on_connection"].startswith("gen"):
             ctx.count("on_connection_generator")
+        if p["timeout"] and p.get("tmode", "yield") != "yield" and any(e[0] == "timeout" for e in log):
+            ctx.count("timeout_from_scope_around_yield")
+            if p["level"] == "high" and p["on_connection"] in ("gen1", "gen2") and any(e[0] == "timeout" for e in log[: next((i for i, e in enumerate(log) if e[0] == "gen-return" and e[2] == "on_connection"), len(log))]):
+                ctx.count("scope_timeout_inside_on_connection_generator")
     return None
 
 
